@@ -69,6 +69,9 @@ func checkC09(w *World, r *Report) {
 	r.include("C09.issuer-", "C10.", "an update issued by a running future is not lost because the future that started it has returned: a future's body is stopped only through its creator's context or future-cancel", checkC10, func(rule string) bool {
 		return rule == "C10.ctx"
 	})
+	// "an update function that fails leaves the atom unchanged": its error reaches swap! through whatever
+	// builtins the program composed the update from (update-in, apply ...)
+	droppedErrorRule(w, r, "C09.update-error")
 	readersWriteNothingRule(w, r, e, "C09.readers-pure", "Atom", w.roles().atomMutex)
 	releaseOnPanicRule(w, r, e, "C09.release-on-panic", w.pkgFuncs("lib/concurrent"))
 	// "swap! ... installs and returns the result": swap!, reset! and deref reach programs through the binder's
@@ -126,7 +129,7 @@ func checkC09(w *World, r *Report) {
 	atomAcc := w.fieldAccesses(guardedField{"lib/concurrent", "Atom", []string{"Val"}, "Mutex"})
 	nv := 0
 	for _, a := range atomAcc {
-		if !a.write || e.freshPtr(a.fa.X, 0) {
+		if !a.write || e.freshPtr(a.object(), 0) {
 			continue
 		}
 		nv++
@@ -136,7 +139,7 @@ func checkC09(w *World, r *Report) {
 				if primitiveConsume(in) {
 					st := in.(*ssa.Store)
 					fa := st.Addr.(*ssa.FieldAddr)
-					if fieldName(fa.X.Type(), fa.Field) == e.w.roles().atomVersion && e.keyOf(fa.X).String() == e.keyOf(a.fa.X).String() {
+					if fieldName(fa.X.Type(), fa.Field) == e.w.roles().atomVersion && e.keyOf(fa.X).String() == e.keyOf(a.object()).String() {
 						if b == a.in.Block() || b.Dominates(a.in.Block()) || a.in.Block().Dominates(b) {
 							found = true
 						}
@@ -567,6 +570,10 @@ func checkC10(w *World, r *Report) {
 	r.rule("C10.ctx", "the body runs under a context.WithCancel child of the creator's context and Cancel calls that cancel function; Deref waits on its caller's context")
 	r.rule("C10.pair", "every lock acquired in the future code is released on every return")
 	guardRule(w, r, e, "C10.shared", w.guardRows()[1])
+	// a future's body starts when the future is made and waits for nothing the futures share: a pool, a slot
+	// counter or a mailbox at package level makes one future's start depend on the others' ends (bodies that wait
+	// for futures not yet started are then never evaluated)
+	sharedStateRule(w, r, "C10.no-shared-queue", "lib/concurrent")
 	r.floor("C10.shared", "accesses to Future.Done/Cancelled", r.count("C10.shared"), 6)
 	pairRule(w, r, e, "C10.pair", w.pkgFuncs("lib/concurrent"))
 
@@ -1641,6 +1648,33 @@ func doneFlagRule(w *World, r *Report, e *Engine, rule string) {
 				okFlag = true
 			}
 		}
+		// read through a helper of the package that is handed the flag's address and returns what it holds
+		if c, ok := v.(*ssa.Call); ok && !okFlag {
+			if h := c.Call.StaticCallee(); h != nil && h.Pkg == isDone.Pkg && len(h.Blocks) > 0 {
+				for i, a := range c.Call.Args {
+					fa, ok := a.(*ssa.FieldAddr)
+					if !ok || fieldName(fa.X.Type(), fa.Field) != "Done" || fa.X != ssa.Value(isDone.Params[0]) || i >= len(h.Params) {
+						continue
+					}
+					all, nr := true, 0
+					for _, hb := range h.Blocks {
+						if len(hb.Instrs) == 0 || hb == h.Recover {
+							continue
+						}
+						hr, ok := hb.Instrs[len(hb.Instrs)-1].(*ssa.Return)
+						if !ok || len(hr.Results) != 1 {
+							continue
+						}
+						nr++
+						ld, ok := resolveRet(hr.Results[0]).(*ssa.UnOp)
+						if !ok || ld.Op != token.MUL || ld.X != ssa.Value(h.Params[i]) {
+							all = false
+						}
+					}
+					okFlag = all && nr > 0
+				}
+			}
+		}
 		r.check(okFlag, rule, isDone, "value returned by IsDone", ret.Pos(), "the Done flag of the receiver", "future-done? is computed from something other than the Done flag ("+describeVal(e, v, 0)+"): it can be false after having been true or after a deref has returned")
 	}
 	for _, fn := range w.Funcs {
@@ -1997,7 +2031,7 @@ func cancelAnswerRule(w *World, r *Report, e *Engine, rule string) {
 // sharedStateRule: every package-level variable of the library that is written after initialisation is state all
 // evaluations share.  The confirmed inventory is the debugger's stepping flags (written only while a stepper is
 // installed: C11.globals).  Anything else - a cache, a counter, a scratch buffer, a sync.Map - is reported.
-func sharedStateRule(w *World, r *Report, rule string) {
+func sharedStateRule(w *World, r *Report, rule string, onlyPkgs ...string) {
 	r.rule(rule, "outside package initialisation no function of the library assigns a package-level variable, writes into storage one holds, updates a package-level sync container or sends on / receives from a package-level channel, except the debugger's stepping flags (C11.globals): caches, counters and scratch buffers at package level are shared, unlocked or not, by every evaluation")
 	allowed := map[string]bool{}
 	if m := newEvalModel(w, newEngine(w)); m.ok {
@@ -2009,6 +2043,15 @@ func sharedStateRule(w *World, r *Report, rule string) {
 	for _, fn := range w.Funcs {
 		if isTestFunc(w, fn) || !libraryPkg(fnPkgPath(fn)) || fn.Name() == "init" || strings.HasSuffix(fnPkgPath(fn), "/debugger") {
 			continue
+		}
+		if len(onlyPkgs) > 0 {
+			in := false
+			for _, p := range onlyPkgs {
+				in = in || fnPkgPath(fn) == modPath+"/"+p
+			}
+			if !in {
+				continue
+			}
 		}
 		for _, b := range fn.Blocks {
 			for _, in := range b.Instrs {
@@ -2063,6 +2106,12 @@ func sharedStateRule(w *World, r *Report, rule string) {
 				case ssa.CallInstruction:
 					c := x.Common()
 					sc := c.StaticCallee()
+					if sc != nil && sc.Signature.Recv() == nil && len(c.Args) > 0 && fnPkgPath(sc) == "sync/atomic" && !strings.HasPrefix(sc.Name(), "Load") {
+						// atomic.AddInt32(&counter, 1): race-free, and shared by every evaluation all the same
+						if gl, ok := c.Args[0].(*ssa.Global); ok {
+							g, what = gl, "atomic."+sc.Name()
+						}
+					}
 					if sc != nil && sc.Signature.Recv() != nil && len(c.Args) > 0 && (fnPkgPath(sc) == "sync" || fnPkgPath(sc) == "sync/atomic") {
 						rt := sc.Signature.Recv().Type().String()
 						if !strings.Contains(rt, "Mutex") && !strings.Contains(rt, "Once") && !strings.Contains(rt, "WaitGroup") {
@@ -2088,7 +2137,11 @@ func sharedStateRule(w *World, r *Report, rule string) {
 			}
 		}
 	}
-	r.floor(rule, "writes to package-level state in the library", n, 3)
+	if len(onlyPkgs) == 0 {
+		r.floor(rule, "writes to package-level state in the library", n, 3)
+	} else {
+		r.add(rule, nil, "package-level state of "+strings.Join(onlyPkgs, ", "), token.NoPos, "ok", fmt.Sprintf("%d writes or channel operations found", n))
+	}
 }
 
 // reachesAvoiding: is there a path from a to b (a != b allowed to be equal: then true) that enters no block of avoid?
